@@ -265,10 +265,15 @@ theorem syntaxFacts_pow2 (feats : Features) (fmt : Format) (hpf : feats.powerOfT
     (hpw : IsPow2 fmt.mantissaRadix) {k : Nat} (hpair : BasePair fmt.mantissaRadix fmt.exponentBase k)
     (hclass : feats.format = false ∨ C12.SepPrefixFree fmt) (o : POpts)
     (hval : isValidOptionsPunctuation feats fmt o.exp o.dp = true) (isPartial : Bool) (s : List Nat) (fv : Bool)
-    (h256 : ∀ x ∈ s, x < 256) (hlen : s.length < 2 ^ 60) (n : Number) (cnt : Nat)
-    (hp : parseFloatSyntax ⟨feats, fmt, false⟩ o isPartial s fv = .ok (.number n cnt))
-    (hexp : ExpInRange n.exponent) :
+    (h256 : ∀ x ∈ s, x < 256) (hlen54 : s.length < 2 ^ 54) (n : Number) (cnt : Nat)
+    (hp : parseFloatSyntax ⟨feats, fmt, false⟩ o isPartial s fv = .ok (.number n cnt)) :
     SyntaxFacts ⟨feats, fmt, false⟩ n := by
+  have hlen : s.length < 2 ^ 60 := Nat.lt_of_lt_of_le hlen54 (Nat.pow_le_pow_right (by decide) (by decide))
+  have h54 : (2 : Nat) ^ 54 = 18014398509481984 := by decide
+  have h59 : (2 : Int) ^ 59 = 576460752303423488 := by decide
+  have h40 : (2 : Int) ^ 40 = 1099511627776 := by decide
+  have hkc : k = 1 ∨ k = 2 ∨ k = 3 ∨ k = 4 ∨ k = 5 := by
+    have := hpair.k1; have := hpair.k5; omega
   have h2 : 2 ≤ fmt.mantissaRadix := by rcases hpw with h | h | h | h | h <;> rw [h] <;> omega
   obtain ⟨hfit, _, _, hstp1⟩ := u64Step_pow2 feats hpf hpw
   have hstep := u64Step_pow2_eq feats hpf hpw
@@ -281,10 +286,10 @@ theorem syntaxFacts_pow2 (feats : Features) (fmt : Format) (hpf : feats.powerOfT
     BasePair.scale ⟨feats, fmt, false⟩ hpair
   have hrk := hpair.pow
   refine ⟨fun hmany => ?_, fun hmany _ => ?_, fun _ G => absurd hpw (generic_not_isPow2 G.mem)⟩
-  · obtain ⟨hx, _, _⟩ := C05Number.number_exact_of_syntax_r fmt.mantissaRadix _ h2 hstp1 hfit ⟨feats, fmt, false⟩ hstep hr8 rfl
+  · obtain ⟨hx, _, _, hbd⟩ := C05Number.number_exact_of_syntax_r fmt.mantissaRadix _ h2 hstp1 hfit ⟨feats, fmt, false⟩ hstep hr8 rfl
       hclass rfl fmt.exponentBase k hpair.k5 hrk rfl hsc o hdp isPartial s fv h256 hlen n cnt hp hmany
-    exact ⟨hx, fun _ => hexp⟩
-  · obtain ⟨hs, hN, hw, hw1, hwlt, hq, _, _, _, _⟩ := C05Number.number_truncated_of_syntax_r fmt.mantissaRadix _ h2 hstp1 hfit
+    exact ⟨hx, fun _ => by unfold LexVerif.Proof.BinaryWide.ExpWide; omega⟩
+  · obtain ⟨hs, hN, hw, hw1, hwlt, hq, hE1, hE2, hl1, hl2⟩ := C05Number.number_truncated_of_syntax_r fmt.mantissaRadix _ h2 hstp1 hfit
       ⟨feats, fmt, false⟩ hstep hr8 rfl hclass rfl fmt.exponentBase k hpair.k5 hrk rfl hsc o hdp isPartial s fv h256 hlen n cnt hp hmany
     have hbs : ∀ x ∈ sigBytes n.integer n.fraction, x < 256 := by
       intro x hx
@@ -296,6 +301,22 @@ theorem syntaxFacts_pow2 (feats : Features) (fmt : Format) (hpf : feats.powerOfT
     have hr' : (⟨feats, fmt, false⟩ : Cfg).mantissaRadix = fmt.mantissaRadix := rfl
     have hb' : (⟨feats, fmt, false⟩ : Cfg).exponentBase = fmt.exponentBase := rfl
     have hf' : (⟨feats, fmt, false⟩ : Cfg).feats = feats := rfl
+    have hexp : LexVerif.Proof.BinaryWide.ExpWide n.exponent := by
+      obtain ⟨z, hz⟩ := sig_decomp n.integer n.fraction
+      have hNle : (sigBytes n.integer n.fraction).length ≤ n.integer.length + (n.fraction.getD []).length := by
+        have := congrArg List.length hz
+        rw [List.length_append, List.length_append, List.length_replicate] at this
+        omega
+      have hstp64 : (smallSetOf feats).u64Step fmt.mantissaRadix ≤ 64 := by
+        have h1 : 2 ^ (smallSetOf feats).u64Step fmt.mantissaRadix ≤
+            fmt.mantissaRadix ^ (smallSetOf feats).u64Step fmt.mantissaRadix := Nat.pow_le_pow_left h2 _
+        exact (Nat.pow_le_pow_iff_right (by decide : 1 < 2)).mp (Nat.le_trans h1 hfit)
+      unfold LexVerif.Proof.BinaryWide.ExpWide
+      rw [hq]
+      generalize (sigBytes n.integer n.fraction).length = N at *
+      generalize (smallSetOf feats).u64Step fmt.mantissaRadix = stp at *
+      generalize (n.fraction.getD []).length = fl at *
+      rcases hkc with rfl | rfl | rfl | rfl | rfl <;> push_cast <;> constructor <;> omega
     constructor
     · exact hexp
     · intro x hx
@@ -359,38 +380,31 @@ theorem C05_generic_main (feats : Features) (fmt : Format) (G : GenericClass ⟨
 
 /-- **`C05_pow2_main`** — power-of-two radices (2, 4, 8, 16, 32) with every supported exponent base (`BasePair`: the radix
 itself and the five mixed pairs 4/2, 8/2, 16/2, 32/2, 16/4 — hex floats with a binary exponent), every `power-of-two` build:
-**no slow-path hypothesis** (`binary` / `slow_binary` are proved); what remains, per `Number` of the input: `hexp`, the
-exponent word inside `±2^27`. -/
+inputs of bytes shorter than `2^54`: **unconditional** — no slow-path hypothesis (`binary` / `slow_binary` are proved) and no
+exponent hypothesis (`binary` with the saturating `calculate_power2` of /repo commit 220c4cc is right on `ExpWide`, which the
+syntax layer guarantees for such inputs: the explicit exponent saturates below `2^40`). -/
 theorem C05_pow2_main (feats : Features) (fmt : Format) (hpf : feats.powerOfTwo = true)
     (hpw : IsPow2 fmt.mantissaRadix) {k : Nat} (hpair : BasePair fmt.mantissaRadix fmt.exponentBase k)
     (hclass : feats.format = false ∨ C12.SepPrefixFree fmt)
     (o : POpts) {F : FTy} (hF : IsLemireFloat F) (isPartial : Bool) (s : List Nat)
-    (h256 : ∀ x ∈ s, x < 256) (hlen : s.length < 2 ^ 60)
-    (hexp : ∀ n cnt, parseFloatSyntax ⟨feats, fmt, false⟩ o isPartial s (formatError feats fmt).isNone =
-      .ok (.number n cnt) → ExpInRange n.exponent) :
+    (h256 : ∀ x ∈ s, x < 256) (hlen : s.length < 2 ^ 54) :
     parseFloatAlgoModel slowModel feats fmt o isPartial F s = parseFloatModel feats fmt o isPartial F.fmt s := by
   apply C01Final.parseFloatAlgoModel_eq_valid
   intro hval n cnt hp
   have hb2 : IsPow2 (⟨feats, fmt, false⟩ : Cfg).exponentBase := hpair.isPow2 hpw
   exact numberToFloat_radix slowModel hF ⟨feats, fmt, false⟩ (.pow2 hpf hpw hb2) n
-    (syntaxFacts_pow2 feats fmt hpf hpw hpair hclass o hval isPartial s _ h256 hlen n cnt hp (hexp n cnt hp))
+    (syntaxFacts_pow2 feats fmt hpf hpw hpair hclass o hval isPartial s _ h256 hlen n cnt hp)
     (fun G => absurd hpw (generic_not_isPow2 G.mem))
 
 /-- non-vacuity: the hexadecimal format (exponent base 16) of a `power-of-two` build; the radix-3 format of a `radix` build -/
-example (s : List Nat) (h256 : ∀ x ∈ s, x < 256) (hlen : s.length < 2 ^ 60)
-    (hexp : ∀ n cnt, parseFloatSyntax ⟨{ powerOfTwo := true }, ⟨0x0a10100000000000000000000000000c⟩, false⟩ {} false s
-      (formatError { powerOfTwo := true } ⟨0x0a10100000000000000000000000000c⟩).isNone = .ok (.number n cnt) →
-      ExpInRange n.exponent) :
+example (s : List Nat) (h256 : ∀ x ∈ s, x < 256) (hlen : s.length < 2 ^ 54) :
     parseFloatAlgoModel slowModel { powerOfTwo := true } ⟨0x0a10100000000000000000000000000c⟩ {} false FTy.f64 s =
       parseFloatModel { powerOfTwo := true } ⟨0x0a10100000000000000000000000000c⟩ {} false f64 s :=
   C05_pow2_main { powerOfTwo := true } ⟨0x0a10100000000000000000000000000c⟩ rfl
-    (by unfold IsPow2; decide) (BasePair.same 16) (Or.inl rfl) {} (Or.inl rfl) false s h256 hlen hexp
+    (by unfold IsPow2; decide) (BasePair.same 16) (Or.inl rfl) {} (Or.inl rfl) false s h256 hlen
 
 /-- non-vacuity for a mixed-base pair: hexadecimal digits with a binary exponent (hex floats) -/
-example (s : List Nat) (h256 : ∀ x ∈ s, x < 256) (hlen : s.length < 2 ^ 60)
-    (hexp : ∀ n cnt, parseFloatSyntax ⟨{ powerOfTwo := true }, ⟨0x0a02100000000000000000000000000c⟩, false⟩ {} false s
-      (formatError { powerOfTwo := true } ⟨0x0a02100000000000000000000000000c⟩).isNone = .ok (.number n cnt) →
-      ExpInRange n.exponent) :
+example (s : List Nat) (h256 : ∀ x ∈ s, x < 256) (hlen : s.length < 2 ^ 54) :
     parseFloatAlgoModel slowModel { powerOfTwo := true } ⟨0x0a02100000000000000000000000000c⟩ {} false FTy.f64 s =
       parseFloatModel { powerOfTwo := true } ⟨0x0a02100000000000000000000000000c⟩ {} false f64 s :=
   C05_pow2_main { powerOfTwo := true } ⟨0x0a02100000000000000000000000000c⟩ rfl
@@ -399,7 +413,7 @@ example (s : List Nat) (h256 : ∀ x ∈ s, x < 256) (hlen : s.length < 2 ^ 60)
       have h1 : (⟨0x0a02100000000000000000000000000c⟩ : Format).mantissaRadix = 16 := by decide
       have h2 : (⟨0x0a02100000000000000000000000000c⟩ : Format).exponentBase = 2 := by decide
       rw [h1, h2]; exact .r16b2)
-    (Or.inl rfl) {} (Or.inl rfl) false s h256 hlen hexp
+    (Or.inl rfl) {} (Or.inl rfl) false s h256 hlen
 
 example : GenericClass ⟨{ powerOfTwo := true, radix := true }, ⟨0x0303030000000000000000000000000c⟩, false⟩ :=
   ⟨rfl, by decide, by decide⟩
